@@ -426,6 +426,7 @@ def attr(base, name):
 
 
 MODULE_NAMES = set()   # filled by model: dotted names that denote modules
+SIGNATURES = {}        # filled by model: package function / class -> positional parameter names
 DISPLAY_NAMES = {}     # canonical loop-variable name -> source identifier (display only)
 
 
@@ -539,6 +540,14 @@ def get_kw(c, name, default=None):
     for k in c[3]:
         if k[0] == 'kw' and k[1] == name:
             return k[2]
+    # a package-local callee: the evaluator passes leading keyword arguments positionally
+    # (one spelling per call), so look the name up in the callee's signature
+    if c[1][0] == 'g' and c[1][1] in SIGNATURES:
+        params = SIGNATURES[c[1][1]]
+        if name in params:
+            i = params.index(name)
+            if i < len(c[2]) and not any(a[0] == 'star' for a in c[2][:i + 1]):
+                return c[2][i]
     return default
 
 
